@@ -118,7 +118,7 @@ func checkC19(c *core.Ctx) error {
 		p.simCfg = simCfg(all, 3, 2, 2)
 		p.nSim = 20000
 		p.stress = 60
-		p.logRuns, p.logLines = 12, 300
+		p.logRuns, p.logLines = 10, 220
 	}
 	p.realCfgs = p.cfgs
 	if err := runPlan(c, p); err != nil {
